@@ -33,9 +33,12 @@ def cases(tier, seed):
     n1 = 4 if tier == "quick" else 16
     for k in range(n1):
         for std in ("lpddr4", "lpddr5"):
-            for mw in (0, 1):
+            for mw in (0, 1, 2):
+                # mw 2: masked_write given as a Signal (the dynamic form the adapters document) that changes at random
+                if mw == 2 and k % 2:
+                    continue
                 out.append(dict(level=1, std=std, masked_write=mw, n=1500 if tier == "quick" else 5000,
-                                seed="C20/1/%d/%s/%d/%d" % (seed, std, mw, k), name="L1-%s-mw%d-%d" % (std, mw, k), cost=2))
+                                seed="C20/1/%d/%s/%d/%d" % (seed, std, mw, k), name="L1-%s-mw%s-%d" % (std, ["0", "1", "dyn"][mw], k), cost=2))
     n2 = 10 if tier == "quick" else 60
     for k in range(n2):
         out.append(dict(level=2, extended=bool(k % 2), cycles=300 if tier == "quick" else 900, density=[0.08, 0.2, 0.5, 0.9][k % 4],
@@ -254,9 +257,11 @@ def run_level1(c):
     class DUT(Module):
         def __init__(self):
             self.dfi = Interface(addressbits=abits, bankbits=bbits, nranks=1, databits=16, nphases=1)
-            self.submodules.ad = DFIPhaseAdapter(self.dfi.p0, masked_write=bool(c["masked_write"]))
+            self.mw = Signal()
+            self.submodules.ad = DFIPhaseAdapter(self.dfi.p0, masked_write=self.mw if c["masked_write"] == 2 else bool(c["masked_write"]))
 
     dut = DUT()
+    dyn = c["masked_write"] == 2
     p, ad = dut.dfi.p0, dut.ad
     v = []
     seen = {}
@@ -271,13 +276,16 @@ def run_level1(c):
             stm = [p.cs_n.eq(cs_n), p.cas_n.eq(1 - cas), p.ras_n.eq(1 - ras), p.we_n.eq(1 - we), p.bank.eq(bank), p.address.eq(addr)]
             if not lp4:
                 stm.append(ad.wck_sync_done.eq(sync_done))
+            mw_now = r.getrandbits(1) if dyn else c["masked_write"]
+            if dyn:
+                stm.append(dut.mw.eq(mw_now))
             yield stm
             yield
             sigs = [ad.valid, ad.cs] + [ad.ca[i] for i in range(4)]
             vals = yield sigs
             valid, cs, ca = vals[0], vals[1], vals[2:]
             if lp4:
-                exp = lp4_expected(cmd, bank, addr, c["masked_write"], cs_n)
+                exp = lp4_expected(cmd, bank, addr, mw_now, cs_n)
                 cs_bits = [(cs >> i) & 1 for i in range(4)]
                 # well-formed: CS may only be high in slots 0 and 2 (first half of a small command)
                 if cs_bits[1] or cs_bits[3]:
@@ -287,7 +295,7 @@ def run_level1(c):
                 s2 = lp4_small(ca[2], ca[3]) if cs_bits[2] else None
                 got = None if (s1 is None and s2 is None) else (lp4_full(s1, s2) if s2 is not None else ("FIRST-SLOT-ONLY", s1[0]))
             else:
-                exp = lp5_expected(cmd, bank, addr, c["masked_write"], sync_done, cs_n)
+                exp = lp5_expected(cmd, bank, addr, mw_now, sync_done, cs_n)
                 cs_bits = [(cs >> i) & 1 for i in range(2)]
                 s1 = lp5_small(ca[0], ca[1]) if cs_bits[0] else None
                 s2 = lp5_small(ca[2], ca[3]) if cs_bits[1] else None
@@ -306,7 +314,7 @@ def run_level1(c):
         state["done"] = True
 
     run_sim(dut, [main()], lambda: state["done"], 10 * c["n"] + 100, wall_limit=900)
-    kinds_needed = {"ACT", "RD", "PRE", "REF", "MRW", "MPC", "MRR", "MWR" if c["masked_write"] else "WR"}
+    kinds_needed = {"ACT", "RD", "PRE", "REF", "MRW", "MPC", "MRR"} | ({"MWR", "WR"} if dyn else {"MWR" if c["masked_write"] else "WR"})
     st = dict(commands_decoded=sum(seen.values()), by_type=seen)
     nontrivial = st["commands_decoded"] >= 200 and kinds_needed <= set(seen)
     return dict(verdict="violated" if v else "held", violations=v[:10], stats=st, nontrivial=bool(nontrivial) or bool(v),
